@@ -27,7 +27,7 @@ RULE = ("systematic product {child behaviour} x {exit path} x {moment} x {entry 
 PROBES = ["large_messages_queued_at_exit", "requests_parked_behind_full_outgoing_queue_when_child_died", "exit_with_more_unread_output_than_reader_buffers", "child_state_checked_at_instant_of_exit", "client_object_reused", "exit_under_cancel_scope", "exit_under_task_cancel", "exit_under_fail_after", "exit_by_exception", "sigterm_ignored_then_killed",
           "child_already_dead_at_exit", "cancel_landed_inside_aexit", "request_pending_when_child_died", "spawn_failed", "writer_blocked_at_exit",
           "flood_at_exit"]
-TIERS = {"quick": {"runs": 20000, "wall": 45.0}, "thorough": {"runs": 2000000, "wall": 560.0}}
+TIERS = {"quick": {"runs": 20000, "wall": 45.0}, "thorough": {"runs": 1500000, "wall": 560.0}}
 ASSUMPTIONS = [
     "real descriptors and /proc state are modelled after asyncio's subprocess transport: the read end of the child's stdout is released when the transport saw EOF (it pauses above 2 x 64 KiB of unread output and then never does) or when the process object is closed (anyio Process.aclose()); the write end goes with the child; kernel-level leaks are out of reach (the one leak this model found was confirmed on a real child)",
     "exit time bound = 2.0 s (two grace periods) + the scenario's modelled SIGTERM/SIGKILL delivery latencies; zero scheduling slack in virtual time",
@@ -252,6 +252,7 @@ def execute(scn: dict) -> dict:
             if st.get("t_exit_end") is not None:
                 return  # context already left
             st.setdefault("t_trigger", sim.now())
+            st.setdefault("trigger_in_earlier_phase", bool(st.get("earlier_phase")))
             st["trigger_eseq"] = sim.rec("env", "cancel:" + ex["path"], None)
             if st.get("t_body_end") is not None:
                 sim.probe("cancel_landed_inside_aexit")
@@ -479,7 +480,8 @@ def execute(scn: dict) -> dict:
                 elif not reaped_l:
                     V("child-unreaped", "at-exit:" + tag, f"the child had exited but was not reaped at the instant the context was left (signals={sigs}): nobody waited for it")
         # no additional open descriptor: the read end of the child's stdout must not outlive the context
-        native_cancel_in_cleanup = (native_cancel_inside_exit and child.t_exit is not None and st["t_trigger"] >= child.t_exit)
+        native_cancel_in_cleanup = ((native_cancel_inside_exit or (path == "task_cancel" and st.get("trigger_in_earlier_phase")))
+                                    and child.t_exit is not None and st.get("t_trigger") is not None and st["t_trigger"] >= child.t_exit)
         if not child.alive and child.stdout_fd_open and (st.get("second_fired") or native_cancel_in_cleanup):
             # a second native task.cancel() while the first one is still being handled, or a native cancel arriving when the child is
             # already gone (i.e. inside the closing of the pipes itself), interrupts the clean-up's own awaits: nothing the library
